@@ -169,7 +169,11 @@ class ORToolsSolver(BaseSolver):
             )
 
         sorted_schedule = [
-            sorted(scheduled_operation, key=lambda x: x.start_time)
+            # A zero-duration operation may start at the same time as
+            # another one on the same machine: it must be listed first.
+            sorted(
+                scheduled_operation, key=lambda x: (x.start_time, x.end_time)
+            )
             for scheduled_operation in unsorted_schedule
         ]
 
